@@ -271,6 +271,15 @@ def r10_8(ctx):
     delegate(ctx, c02.r02_9, lambda c: "prompt tests quantify over all definitions" in c)
 
 
+def r10_9(ctx):
+    """R10.9 every assignment of the minimal file is stored: Symbol.set_value records the user value whatever the option currently
+    evaluates to (C03 R03.9) - an assignment that happens to match the value of the moment is otherwise dropped and a later line
+    of the same file changes the default it relied on."""
+    from . import c03
+    from .common import delegate
+    delegate(ctx, c03.r03_9, lambda c: "Symbol.set_value/store self._user_value" in c or "Symbol.set_value/store self._was_set" in c)
+
+
 def rules():
-    return [("R10.8", r10_8, 1), ("R10.7", r10_7, 1), ("R10.6", r10_6, 3), ("R10.1", r10_1, 4), ("R10.1b", r10_1b, 3), ("R10.2", r10_2, 4), ("R10.2b", r10_2b, 2), ("R10.3", r10_3, 2),
+    return [("R10.9", r10_9, 2), ("R10.8", r10_8, 1), ("R10.7", r10_7, 1), ("R10.6", r10_6, 3), ("R10.1", r10_1, 4), ("R10.1b", r10_1b, 3), ("R10.2", r10_2, 4), ("R10.2b", r10_2b, 2), ("R10.3", r10_3, 2),
             ("R10.4", r10_4, 1), ("R10.5", r10_5, 5)]
